@@ -89,22 +89,40 @@ type Obj struct {
 	X  map[string]string `json:"x,omitempty"`
 }
 
-// Case is either a wrapping chain around one class (Kind "chain") or a gRPC code with a message (Kind "code").
-// Chain: Class is wrapped by Wraps[0], Wraps[1], ... ; if Embed >= 0, errors.EmbedObject(Obj, e) is applied
-// after the first Embed wraps (0 = directly on the class value, len(Wraps) = outermost).
+// Chain is one wrapping chain around one class: Class is wrapped by Wraps[0], Wraps[1], ... ; if Embed >= 0,
+// errors.EmbedObject(Obj, e) is applied after the first Embed wraps (0 = directly on the class value,
+// len(Wraps) = outermost). Target > 0 asks for a finished chain whose err.Error() is Target bytes long: the
+// missing bytes are ASCII padding put where Pad says - "pre:k"/"post:k" (text of wrap level k mod depth),
+// "obj.s" (the object's string), "obj.l" (many array elements), "obj.x" (many fields); the last two are
+// topped up through the string. A chain that is already longer, or has no place for the padding, stays as it is.
+type Chain struct {
+	Class  string `json:"class,omitempty"`
+	Wraps  []Wrap `json:"wraps,omitempty"`
+	Embed  int    `json:"embed"`
+	Obj    *Obj   `json:"obj,omitempty"`
+	Target int    `json:"target,omitempty"`
+	Pad    string `json:"pad,omitempty"`
+}
+
+// Case is a wrapping chain (Kind "chain", the inline Chain fields), a batch of chains (Kind "batch": all
+// chains are built - and wrapped by GRPCWrap - before the first result is looked at; Eager = GRPCWrap is
+// applied to each chain right after it is built, otherwise after all chains are built) or a gRPC code with
+// a message (Kind "code").
 type Case struct {
-	Kind  string `json:"kind"`
-	Class string `json:"class,omitempty"`
-	Wraps []Wrap `json:"wraps,omitempty"`
-	Embed int    `json:"embed"`
-	Obj   *Obj   `json:"obj,omitempty"`
-	Code  uint32 `json:"code"`
-	Msg   string `json:"msg,omitempty"`
+	Kind string `json:"kind"`
+	Chain
+	Batch []Chain `json:"batch,omitempty"`
+	Eager bool    `json:"eager,omitempty"`
+	Code  uint32  `json:"code"`
+	Msg   string  `json:"msg,omitempty"`
 }
 
 // Info is what the classifier needs.
 type Info struct {
 	Chain     bool
+	Batch     int // number of chains of a batch case
+	BatchEmb  int // ... with an embedded object
+	Eager     bool
 	Class     string
 	Depth     int
 	Embed     string // "", "inner", "middle", "outer", "only"
@@ -113,6 +131,9 @@ type Info struct {
 	Hazards   []string
 	Repaired  bool // a wrap text would have completed a marker across a concatenation boundary and was replaced
 	ObjMarker bool // the object's strings contain the complete marker (escaped by JSON)
+	MaxLen    int  // longest err.Error() of a finished chain
+	Boundary  bool // some finished chain is within 1 byte of a power of two >= 256
+	Pads      []string
 }
 
 // Run executes the case.
@@ -120,7 +141,12 @@ func Run(c Case) (info Info, v *vstat.Violation) {
 	return info, vstat.Guard("errors:panic", func() *vstat.Violation {
 		switch c.Kind {
 		case "chain":
-			return runChain(c, &info)
+			info.Chain = true
+			return runChains([]Chain{c.Chain}, true, &info)
+		case "batch":
+			info.Batch = len(c.Batch)
+			info.Eager = c.Eager
+			return runChains(c.Batch, c.Eager, &info)
 		case "code":
 			return runCode(c, &info)
 		}
@@ -186,10 +212,10 @@ func objHasMarker(o *Obj) bool {
 func extractCheck(stage string, e error, want *Obj, wantJSON []byte) *vstat.Violation {
 	var got Obj
 	if !gerrors.ExtractObject(e, &got) {
-		return vstat.V("errors:extract-failed", "%s: ExtractObject returned false for %q (embedded %s)", stage, e.Error(), js(want))
+		return vstat.V("errors:extract-failed", "%s: ExtractObject returned false for (%d bytes) %q (embedded %s)", stage, len(e.Error()), clip(e.Error()), clip(js(want)))
 	}
 	if !objEqual(&got, wantJSON) {
-		return vstat.V("errors:extract-different-object", "%s: ExtractObject returned %s, embedded was %s (message %q)", stage, js(&got), js(want), e.Error())
+		return vstat.V("errors:extract-different-object", "%s: ExtractObject returned %s, embedded was %s (message %q)", stage, clip(js(&got)), clip(js(want)), clip(e.Error()))
 	}
 	return nil
 }
@@ -199,110 +225,270 @@ func js(o *Obj) string {
 	return string(b)
 }
 
-func runChain(c Case, info *Info) *vstat.Violation {
-	info.Chain, info.Class, info.Depth = true, c.Class, len(c.Wraps)
+const padPattern = "abcdefghi " // no letter of the marker, no ESC
+
+func padText(n int) string {
+	if n <= 0 {
+		return ""
+	}
+	return strings.Repeat(padPattern, n/len(padPattern)+1)[:n]
+}
+
+// built is a finished chain with everything the checks need.
+type built struct {
+	ch       Chain // after padding
+	cls      error
+	wantJSON []byte
+	eEmb     error // result of EmbedObject
+	e        error // finished chain
+	g, g2    error // GRPCWrap(e), GRPCWrap(GRPCWrap(e))
+	repaired bool
+}
+
+func validate(ch Chain) {
 	coded := false
 	for _, n := range CodedClasses {
-		coded = coded || n == c.Class
+		coded = coded || n == ch.Class
 	}
 	if !coded {
-		panic("class without a gRPC code in a chain case: " + c.Class)
+		panic("class without a gRPC code in a chain: " + ch.Class)
 	}
-	if c.Embed > len(c.Wraps) {
+	if ch.Embed > len(ch.Wraps) {
 		panic("embed level beyond the chain")
 	}
-	if c.Embed >= 0 && c.Obj == nil {
+	if ch.Embed >= 0 && ch.Obj == nil {
 		panic("embed without an object")
 	}
-	cls := classByName(c.Class)
-	var texts []string
-	for _, w := range c.Wraps {
+	for _, w := range ch.Wraps {
 		if !utf8.ValidString(w.Pre) || !utf8.ValidString(w.Post) || strings.Contains(w.Pre, marker) || strings.Contains(w.Post, marker) {
 			panic("wrap texts must be valid UTF-8 without the complete marker")
 		}
-		texts = append(texts, w.Pre, w.Post)
 	}
-	info.Hazards = hazards(texts...)
-	info.ObjMarker = c.Embed >= 0 && objHasMarker(c.Obj)
-	switch {
-	case c.Embed < 0:
-	case len(c.Wraps) == 0:
-		info.Embed = "only"
-	case c.Embed == 0:
-		info.Embed = "inner"
-	case c.Embed == len(c.Wraps):
-		info.Embed = "outer"
-	default:
-		info.Embed = "middle"
-	}
+}
 
-	var wantJSON []byte
-	if c.Embed >= 0 {
-		var err error
-		if wantJSON, err = json.Marshal(c.Obj); err != nil {
-			panic("object is not marshalable: " + err.Error())
-		}
-	}
-	// build the chain; the message holds 0 markers before the embedding and exactly 2 after it
-	e := cls
+// assemble builds the chain through the library; the message holds 0 markers before the embedding and exactly 2 after it.
+func assemble(ch Chain) (e, eEmb error, repaired bool) {
+	e = classByName(ch.Class)
 	markers := 0
-	for k := 0; k <= len(c.Wraps); k++ {
-		if c.Embed == k {
-			e = gerrors.EmbedObject(c.Obj, e)
+	for k := 0; k <= len(ch.Wraps); k++ {
+		if ch.Embed == k {
+			e = gerrors.EmbedObject(ch.Obj, e)
+			eEmb = e
 			markers = 2
-			if v := extractCheck("directly after EmbedObject", e, c.Obj, wantJSON); v != nil {
-				return v
-			}
 		}
-		if k == len(c.Wraps) {
+		if k == len(ch.Wraps) {
 			break
 		}
-		w := c.Wraps[k]
+		w := ch.Wraps[k]
 		if strings.Count(w.Pre+e.Error()+w.Post, marker) != markers {
 			// the texts complete a marker across a concatenation boundary: outside EmbedObject's /
 			// ExtractObject's documented format, use neutral texts for this level instead
 			w = Wrap{Pre: "[", Post: "]"}
-			info.Repaired = true
+			repaired = true
 		}
 		e = fmt.Errorf("%s%w%s", w.Pre, e, w.Post)
 	}
-	if strings.Count(e.Error(), marker) != markers {
-		panic("generator bug: marker count")
-	}
-	where := func() string { return fmt.Sprintf("class %s, chain message %q", c.Class, e.Error()) }
+	return e, eEmb, repaired
+}
 
-	if c.Embed >= 0 {
-		if v := extractCheck("after fmt wrapping", e, c.Obj, wantJSON); v != nil {
+// padded returns the chain with the padding asked for by Target/Pad applied (a copy; the case is not modified).
+func padded(ch Chain) Chain {
+	if ch.Target <= 0 {
+		return ch
+	}
+	measure := func(x Chain) int {
+		e, _, _ := assemble(x)
+		return len(e.Error())
+	}
+	need := ch.Target - measure(ch)
+	if need <= 0 {
+		return ch
+	}
+	place, arg := ch.Pad, 0
+	if k := strings.IndexByte(place, ':'); k >= 0 {
+		fmt.Sscanf(place[k+1:], "%d", &arg)
+		place = place[:k]
+	}
+	switch place {
+	case "pre", "post":
+		if len(ch.Wraps) == 0 {
+			return ch
+		}
+		ws := append([]Wrap(nil), ch.Wraps...)
+		k := arg % len(ws)
+		if place == "pre" {
+			ws[k].Pre = padText(need) + ws[k].Pre
+		} else {
+			ws[k].Post = ws[k].Post + padText(need)
+		}
+		ch.Wraps = ws
+	case "obj.s", "obj.l", "obj.x":
+		if ch.Embed < 0 {
+			return ch
+		}
+		o := *ch.Obj
+		switch place {
+		case "obj.l":
+			o.L = append([]string(nil), o.L...)
+			for n := need / 16; n > 0; n-- { // "abcdefghi abc", costs 16 bytes
+				o.L = append(o.L, padText(13))
+			}
+		case "obj.x":
+			x := map[string]string{}
+			for k, v := range o.X {
+				x[k] = v
+			}
+			for n := need / 16; n > 0; n-- { // "k0000001":"v", costs 15..16 bytes
+				x[fmt.Sprintf("k%07d", n)] = "v"
+			}
+			o.X = x
+		}
+		ch.Obj = &o
+		if place != "obj.s" {
+			need = ch.Target - measure(ch)
+		}
+		if need > 0 {
+			o.S += padText(need)
+		}
+	default:
+		panic("bad pad place " + ch.Pad)
+	}
+	return ch
+}
+
+func embedName(ch Chain) string {
+	switch {
+	case ch.Embed < 0:
+		return ""
+	case len(ch.Wraps) == 0:
+		return "only"
+	case ch.Embed == 0:
+		return "inner"
+	case ch.Embed == len(ch.Wraps):
+		return "outer"
+	}
+	return "middle"
+}
+
+// runChains builds all chains first (and applies GRPCWrap - per chain when eager, else after all are built) and
+// only then looks at the results: an error value must not depend on errors created after it.
+func runChains(chs []Chain, eager bool, info *Info) *vstat.Violation {
+	bs := make([]*built, len(chs))
+	var texts []string
+	for n, ch := range chs {
+		validate(ch)
+		for _, w := range ch.Wraps {
+			texts = append(texts, w.Pre, w.Post)
+		}
+		b := &built{ch: padded(ch), cls: classByName(ch.Class)}
+		bs[n] = b
+		if ch.Target > 0 {
+			info.Pads = append(info.Pads, "pad:"+strings.SplitN(ch.Pad, ":", 2)[0])
+		}
+		if b.ch.Embed >= 0 {
+			info.BatchEmb++
+			var err error
+			if b.wantJSON, err = json.Marshal(b.ch.Obj); err != nil {
+				panic("object is not marshalable: " + err.Error())
+			}
+			info.ObjMarker = info.ObjMarker || objHasMarker(b.ch.Obj)
+		}
+	}
+	info.Hazards = hazards(texts...)
+	info.Class, info.Depth, info.Embed = chs[0].Class, len(chs[0].Wraps), embedName(chs[0])
+
+	wrap := func(b *built) {
+		b.g = gerrors.GRPCWrap(b.e)
+		b.g2 = gerrors.GRPCWrap(b.g)
+	}
+	for _, b := range bs {
+		b.e, b.eEmb, b.repaired = assemble(b.ch)
+		info.Repaired = info.Repaired || b.repaired
+		if eager {
+			wrap(b)
+		}
+	}
+	if !eager {
+		for _, b := range bs {
+			wrap(b)
+		}
+	}
+	for n, b := range bs {
+		if v := checkChain(b, info); v != nil {
+			if len(bs) > 1 {
+				v.Msg = fmt.Sprintf("chain %d of %d (all built before the first check): %s", n, len(bs), v.Msg)
+			}
 			return v
 		}
 	}
-	g := gerrors.GRPCWrap(e)
+	return nil
+}
+
+func clip(s string) string {
+	if len(s) > 300 {
+		return fmt.Sprintf("%s…[%d bytes]…%s", s[:150], len(s), s[len(s)-100:])
+	}
+	return s
+}
+
+func checkChain(b *built, info *Info) *vstat.Violation {
+	c, e, g, g2, cls := b.ch, b.e, b.g, b.g2, b.cls
+	msg := e.Error()
+	markers := 0
+	if c.Embed >= 0 {
+		markers = 2
+	}
+	if n := len(msg); n > info.MaxLen {
+		info.MaxLen = n
+	}
+	for p := 256; p <= 1<<17; p *= 2 {
+		if d := len(msg) - p; d >= -1 && d <= 1 {
+			info.Boundary = true
+		}
+	}
+	where := func() string { return fmt.Sprintf("class %s, chain message (%d bytes) %q", c.Class, len(msg), clip(msg)) }
+
+	if c.Embed >= 0 {
+		if v := extractCheck("result of EmbedObject", b.eEmb, c.Obj, b.wantJSON); v != nil {
+			return v
+		}
+		// generator sanity, after the library had its say: a marker count other than 2 here means the text
+		// of the chain itself changed (that is what extractCheck reports) or the generator is wrong
+		if strings.Count(msg, marker) != markers {
+			if v := extractCheck("after fmt wrapping", e, c.Obj, b.wantJSON); v != nil {
+				return v
+			}
+			panic("generator bug: marker count")
+		}
+		if v := extractCheck("after fmt wrapping", e, c.Obj, b.wantJSON); v != nil {
+			return v
+		}
+	}
 	if g == nil {
 		return vstat.V("errors:grpcwrap-nil", "GRPCWrap returned nil for %s", where())
 	}
 	if !gerrors.Is(g, cls) {
-		return vstat.V("errors:class-lost", "Is(GRPCWrap(e), %s) is false; GRPCWrap(e) = %q (code %v); %s", c.Class, g.Error(), status.Code(g), where())
+		return vstat.V("errors:class-lost", "Is(GRPCWrap(e), %s) is false; GRPCWrap(e) = %q (code %v); %s", c.Class, clip(g.Error()), status.Code(g), where())
 	}
 	for _, o := range distinctClasses() {
 		if o.Err == cls {
 			continue
 		}
 		if gerrors.Is(g, o.Err) {
-			return vstat.V("errors:other-class-matches", "Is(GRPCWrap(e), %s) is true for a chain around %s; GRPCWrap(e) = %q (code %v)", o.Name, c.Class, g.Error(), status.Code(g))
+			return vstat.V("errors:other-class-matches", "Is(GRPCWrap(e), %s) is true for a chain around %s; GRPCWrap(e) = %q (code %v)", o.Name, c.Class, clip(g.Error()), status.Code(g))
 		}
 	}
-	g2 := gerrors.GRPCWrap(g)
 	if g2 != g {
-		return vstat.V("errors:grpcwrap-not-idempotent", "GRPCWrap(GRPCWrap(e)) is not the same error value: %q vs %q; %s", fmt.Sprint(g2), g.Error(), where())
+		return vstat.V("errors:grpcwrap-not-idempotent", "GRPCWrap(GRPCWrap(e)) is not the same error value: %q vs %q; %s", clip(fmt.Sprint(g2)), clip(g.Error()), where())
 	}
 	if c1, c2 := gerrors.GRPCStatusCode(g), gerrors.GRPCStatusCode(g2); c1 != c2 {
 		return vstat.V("errors:grpcwrap-not-idempotent", "code changed from %v to %v by the second GRPCWrap; %s", c1, c2, where())
 	}
 	if c.Embed >= 0 {
-		if v := extractCheck("after GRPCWrap", g, c.Obj, wantJSON); v != nil {
+		if v := extractCheck("after GRPCWrap", g, c.Obj, b.wantJSON); v != nil {
 			return v
 		}
-		if v := extractCheck("after GRPCWrap twice", g2, c.Obj, wantJSON); v != nil {
+		if v := extractCheck("after GRPCWrap twice", g2, c.Obj, b.wantJSON); v != nil {
 			return v
 		}
 	}
@@ -343,10 +529,13 @@ func runCode(c Case, info *Info) *vstat.Violation {
 func (c Case) Hash() uint64 { return vstat.Hash(c) }
 
 // NonTrivial is the rule of C19: a chain in which the class is reachable only through Unwrap (>= 1 wrap
-// level) or that carries an embedded object; a non-OK code.
+// level) or that carries an embedded object; a batch with >= 2 embedded objects; a non-OK code.
 func (i Info) NonTrivial() bool {
-	if i.Chain {
+	switch {
+	case i.Chain:
 		return i.Depth >= 1 || i.Embed != ""
+	case i.Batch > 0:
+		return i.BatchEmb >= 2
 	}
 	return !i.OK
 }
@@ -354,21 +543,50 @@ func (i Info) NonTrivial() bool {
 // Classes for the histogram.
 func (i Info) Classes() []string {
 	var c []string
-	if i.Chain {
+	switch {
+	case i.Chain:
 		c = append(c, "chain", "class:"+i.Class, fmt.Sprintf("depth:%d", i.Depth))
 		if i.Embed == "" {
 			c = append(c, "embed:none")
 		} else {
 			c = append(c, "embed:"+i.Embed)
 		}
-		if i.Repaired {
-			c = append(c, "text_would_complete_marker_replaced")
+	case i.Batch > 0:
+		c = append(c, "batch", fmt.Sprintf("batch_size:%d", i.Batch))
+		if i.BatchEmb >= 2 {
+			c = append(c, "batch_with_ge_2_embedded_objects")
 		}
-		if i.ObjMarker {
-			c = append(c, "object_string_contains_marker")
+		if i.Eager {
+			c = append(c, "batch_grpcwrap_per_chain")
+		} else {
+			c = append(c, "batch_grpcwrap_after_all_built")
 		}
-	} else {
-		c = append(c, "code", "code:"+i.Code)
+	default:
+		return append(append(c, "code", "code:"+i.Code), i.Hazards...)
 	}
+	if i.Repaired {
+		c = append(c, "text_would_complete_marker_replaced")
+	}
+	if i.ObjMarker {
+		c = append(c, "object_string_contains_marker")
+	}
+	switch n := i.MaxLen; {
+	case n < 256:
+		c = append(c, "msglen:<256")
+	case n < 1024:
+		c = append(c, "msglen:256..1023")
+	case n < 4096:
+		c = append(c, "msglen:1024..4095")
+	case n < 16384:
+		c = append(c, "msglen:4096..16383")
+	case n < 65536:
+		c = append(c, "msglen:16384..65535")
+	default:
+		c = append(c, "msglen:>=65536")
+	}
+	if i.Boundary {
+		c = append(c, "msglen_within_1_of_power_of_two")
+	}
+	c = append(c, i.Pads...)
 	return append(c, i.Hazards...)
 }
